@@ -344,7 +344,90 @@ def rule_d(ctx: Ctx) -> None:
         ctx.fail(core, pk[0] if pk else core.tree, "sqlglot.expressions.core", "POSITION_META_KEYS", "POSITION_META_KEYS no longer lists line, col, start, end")
 
 
-RULES = [rule_a, rule_b, rule_c, rule_d]
+def _count_vector(e: ast.AST, env: dict[str, ast.AST], sign: int = 1, depth: int = 0) -> dict[str, int] | None:
+    """linear combination of <str>.count(<const>, ...) terms: {counted string: coefficient}; None if e has another shape"""
+    if depth > 4:
+        return None
+    if isinstance(e, ast.Name) and e.id in env:
+        return _count_vector(env[e.id], env, sign, depth + 1)
+    if isinstance(e, ast.BinOp) and isinstance(e.op, (ast.Add, ast.Sub)):
+        a = _count_vector(e.left, env, sign, depth + 1)
+        b = _count_vector(e.right, env, sign if isinstance(e.op, ast.Add) else -sign, depth + 1)
+        if a is None or b is None:
+            return None
+        out = dict(a)
+        for k, v in b.items():
+            out[k] = out.get(k, 0) + v
+        return {k: v for k, v in out.items() if v}
+    if isinstance(e, ast.Call) and isinstance(e.func, ast.Attribute) and e.func.attr == "count" and e.args and isinstance(e.args[0], ast.Constant) and isinstance(e.args[0].value, str):
+        return {e.args[0].value: sign}
+    return None
+
+
+def rule_e(ctx: Ctx) -> None:
+    ctx.rule("C13.e", "line accounting agreement: the str.find fast path of _extract_string counts exactly the line breaks _advance counts "
+                      "(the same characters, CR LF as one) and restarts the column after the last of them, so a token's line does not depend on which path scanned the string before it")
+    adv = ctx.repo.func(TC, "TokenizerCore._advance")
+    ext = ctx.repo.func(TC, "TokenizerCore._extract_string")
+    m = adv.module
+    # what _advance treats as a line break
+    outer = None
+    for st in walk_no_nested(adv.node):
+        if isinstance(st, ast.If) and any(isinstance(x, ast.AugAssign) and norm(x.target) == "self._line" for x in ast.walk(st)):
+            outer = st
+            break
+    ctx.require(outer is not None, "anchor vanished: _advance no longer increments self._line under a condition")
+    chars = set()
+    for cmp_ in ast.walk(outer.test):
+        if isinstance(cmp_, ast.Compare) and len(cmp_.ops) == 1 and isinstance(cmp_.ops[0], ast.Eq) and isinstance(cmp_.comparators[0], ast.Constant) and isinstance(cmp_.comparators[0].value, str):
+            chars.add(cmp_.comparators[0].value)
+        if isinstance(cmp_, ast.Compare) and len(cmp_.ops) == 1 and isinstance(cmp_.ops[0], ast.In) and isinstance(cmp_.comparators[0], (ast.Tuple, ast.Set, ast.List, ast.Constant)):
+            cs = cmp_.comparators[0]
+            chars |= {x.value for x in getattr(cs, "elts", []) if isinstance(x, ast.Constant)} if not isinstance(cs, ast.Constant) else set(cs.value)
+    ctx.require(bool(chars), "anchor vanished: cannot read the line-break characters from _advance's condition")
+    want = {c: 1 for c in chars}
+    # an inner guard `not (char == A and self._peek == B)` makes the pair AB count once
+    for inner in [x for x in ast.walk(outer) if isinstance(x, ast.If) and x is not outer and any(isinstance(y, ast.AugAssign) and norm(y.target) == "self._line" for y in ast.walk(x))]:
+        t_ = inner.test
+        if isinstance(t_, ast.UnaryOp) and isinstance(t_.op, ast.Not) and isinstance(t_.operand, ast.BoolOp) and isinstance(t_.operand.op, ast.And) and len(t_.operand.values) == 2:
+            a, b = t_.operand.values
+            if all(isinstance(x, ast.Compare) and isinstance(x.comparators[0], ast.Constant) for x in (a, b)) and "_peek" in norm(b.left):
+                want[a.comparators[0].value + b.comparators[0].value] = -1
+            else:
+                raise_shape = True
+                ctx.require(False, "anchor vanished: unrecognised pairing guard in _advance's line accounting")
+        else:
+            ctx.require(False, "anchor vanished: unrecognised inner guard in _advance's line accounting")
+    # the fast path's bump of self._line
+    env: dict[str, ast.AST] = {}
+    for st in walk_no_nested(ext.node):
+        if isinstance(st, ast.Assign) and len(st.targets) == 1 and isinstance(st.targets[0], ast.Name):
+            env.setdefault(st.targets[0].id, st.value)
+    bumps = [st for st in walk_no_nested(ext.node) if isinstance(st, ast.AugAssign) and norm(st.target) == "self._line" and isinstance(st.op, ast.Add)]
+    ctx.require(len(bumps) == 1, "anchor vanished: _extract_string no longer bumps self._line exactly once (fast path)")
+    got = _count_vector(bumps[0].value, env)
+    inst = f"{ext.key}|self._line += {norm(bumps[0].value)}"
+    if got is None:
+        ctx.fail(m, bumps[0], ext.key, bumps[0], "the fast path's line increment is not a combination of str.count terms the rule can compare with _advance")
+    elif got == want:
+        ctx.ok(inst, {"_advance_counts": want, "fast_path_counts": got})
+    else:
+        ctx.fail(m, bumps[0], ext.key, bumps[0],
+                 f"the string fast path counts line breaks as {got} while _advance counts {want} (coefficient per character sequence): the line of every later token "
+                 f"depends on whether the preceding string took the fast path")
+    # column restart: after the last line break of any counted kind
+    singles = {c for c, k in want.items() if k > 0}
+    cols = [st for st in walk_no_nested(ext.node) if isinstance(st, ast.Assign) and norm(st.targets[0]) == "self._col" and any(isinstance(x, ast.Call) and isinstance(x.func, ast.Attribute) and x.func.attr == "rfind" for x in ast.walk(st.value))]
+    ctx.require(len(cols) == 1, "anchor vanished: _extract_string no longer restarts self._col from an rfind of the last line break")
+    found = {x.args[0].value for x in ast.walk(cols[0].value) if isinstance(x, ast.Call) and isinstance(x.func, ast.Attribute) and x.func.attr == "rfind" and x.args and isinstance(x.args[0], ast.Constant)}
+    uses_max = any(isinstance(x, ast.Call) and call_name(x) == "max" for x in ast.walk(cols[0].value))
+    if found == singles and (len(singles) == 1 or uses_max):
+        ctx.ok(f"{ext.key}|{norm(cols[0])}", {"column_restarts_after_last_of": sorted(found)})
+    else:
+        ctx.fail(m, cols[0], ext.key, cols[0], f"the column restarts after the last of {sorted(found)} but the counted line breaks are {sorted(singles)}")
+
+
+RULES = [rule_a, rule_b, rule_c, rule_d, rule_e]
 EXPLANATION = (
     "Representation invariants of the scanner cursor checked symbolically on every block that writes _current (linear "
     "normal form of offsets with local resolution, so the str.find and alnum fast paths are covered), the token stamp, "
